@@ -7,6 +7,9 @@ value of the nearest edge cell (no exception, no wrap-around); bracket / weight 
 Velocity, wvel, field and vert_mix are judged against the values of the particle's (nearest edge) cell
 (u / v faces of the layer, bracketing levels); u, v, w inside the grid also bit-exactly against the model's
 trilinear formula.  The same queries are issued for the `mine` pair and, batched, for all positions at once.
+Histories: one Grid / Forcing is asked repeatedly with position arrays that the caller keeps and updates in place (or replaces
+on release / removal) while the particles change cell, leave over an edge and the forcing advances in time; every answer is that
+of the cell the particle is in now (arithmetic on copies of the fields) and equals the answer of a Grid / Forcing without history.
 Full LADiM runs: particles leaving through each boundary are retired and the run completes."""
 import importlib, os, tempfile, shutil
 import numpy as np
@@ -21,7 +24,14 @@ RULE = ("synthetic ROMS files (6..10 x 5..9 x 3..5, random bathymetry 20..100 m 
         "edges at once (corners); depths from above the surface to below the bed, exactly on w- and rho-levels, on the bed and half way "
         "between two w-levels; velocity at the integrators' sub-steps tstep 0 / 0.5 / 1; every query issued per position and once for "
         "the whole batch; full LADiM runs (chemicals, sedimentation, mine; EF / RK4; 0.3..0.9 cell per step) with particles released "
-        "0.05 / 0.3 / 0.6 cell inside each of the four boundaries in an outward current and one in the middle. Interior cell borders (x = n + 0.5) are not generated: there two cells are equally near "
+        "0.05 / 0.3 / 0.6 cell inside each of the four boundaries in an outward current and one in the middle; query histories on one "
+        "Grid / Forcing per module (chemicals, mine, salmon_lice vert_mix, sedimentation sample_depth; synthetic files and, for chemicals, the "
+        "shipped file): 3..8 particles, 10 (thorough 25) steps, the SAME X / Y / Z array objects passed at every step and updated in place "
+        "between the steps (slice / masked assignment / +=) or replaced by new arrays (same length, particles released, a particle removed), "
+        "moves inside the cell, to a neighbouring cell, 0.5..1.49 cell out over an edge, anywhere, X only, Y only, depth only, none; depths 0..120 m, "
+        "on w-levels and half way between two w-levels; forcing "
+        "time step advanced (update(t)) at random steps; every Forcing and Grid query issued at every step, vertdiff twice (second time with "
+        "new depths, same X / Y objects, as the LaBolle scheme does). Interior cell borders (x = n + 0.5) are not generated: there two cells are equally near "
         "and the statement does not say which one is meant. Non-trivial: every query point.")
 ASSUMPTIONS = ["LADiM's bilin_inv / sample2D (xy2ll, ll2xy) are exercised, not modelled",
                "value oracles on the Grid queries apply to the chemicals Grid; on the sedimentation / mine Grid (LADiM's ROMS Grid) only "
@@ -427,6 +437,273 @@ def sed_depth(ctx, drv, pend, conf, label):
             pend.append(("bil", drv.ask("gs.bil", F(p), F(q), F(corners[0]), F(corners[1]), F(corners[2]), F(corners[3])), d, cs))
 
 
+def nearest_interior_levels(colw, z):
+    """the interior w-levels (1 .. len-2) of an increasing column that are nearest, in metres, to depth z (positive down).
+    Two levels count as equally near when their distances differ by less than 1e-9 of the column height: the statement does
+    not say which of two equally near levels is meant, and an implementation that decides by comparing a rounded quotient
+    with one half may take either within a few ulp of the tie; a wrong level is off by a whole layer thickness."""
+    d = np.abs(np.asarray(colw[1:-1], dtype=float) + float(z))
+    tol = 1e-9 * float(colw[-1] - colw[0])
+    return [1 + int(i) for i in np.nonzero(d <= d.min() + tol)[0]]
+
+
+def corner_values(arr, xi, yj):
+    """values of a 2-D node array at the four nodes around the position (xi, yj) (array coordinates), the position first
+    moved to the nearest point of the rectangle of the nodes"""
+    ny, nx = arr.shape
+    i = min(max(float(xi), 0.0), nx - 1.0); j = min(max(float(yj), 0.0), ny - 1.0)
+    i0 = min(int(np.floor(i)), nx - 2); j0 = min(int(np.floor(j)), ny - 2)
+    return [arr[j0, i0], arr[j0, i0 + 1], arr[j0 + 1, i0], arr[j0 + 1, i0 + 1]], i, j
+
+
+def history(ctx, G, conf, label, pair, nt_max):
+    """Histories of queries, as the tracker and the IBMs issue them: ONE Grid / Forcing is asked again and again with the
+    caller's position arrays, which are kept between the queries and updated in place (LADiM's tracker: state['X'][active] = X;
+    chemicals IBM.horzdiff: state['X'][in_grid] = x2[in_grid]), replaced by new arrays when particles are released or removed,
+    while the particles move inside their cell, to another cell and out over an edge, and the forcing advances in time.
+    Every answer must be the answer for the positions the arrays hold NOW: judged against the field values of the particle's
+    current (nearest edge) cell by arithmetic on copies of the fields (nothing of the module under test is called for the
+    expected values), and additionally against a second Grid / Forcing that has never seen the history."""
+    own = pair == "chemicals"
+    if pair in ("chemicals", "mine"):
+        Mod = G if own else importlib.import_module("ladim_plugins.mine")
+        fs = SITE + "::Forcing."; gs = (SITE if own else "ladim_plugins/mine/__init__.py") + "::Grid."
+        tag = "C15.history" if own else "C15.mine.history"
+    elif pair == "salmon_lice":
+        Mod = importlib.import_module("ladim_plugins.salmon_lice.gridforce")
+        fs = "ladim_plugins/salmon_lice/gridforce.py::Forcing."; gs = None; tag = "C15.lice.history"
+    else:
+        Mod = importlib.import_module("ladim_plugins.sedimentation.gridforce")
+        fs = None; gs = "ladim_plugins/sedimentation/gridforce.py::Grid."; tag = "C15.sed.history"
+    g = Mod.Grid(conf); g2 = Mod.Grid(conf)
+    f = f2 = None
+    if fs is not None:
+        f = Mod.Forcing(conf, g); f2 = Mod.Forcing(conf, g2)
+        f.update(0); f2.update(0)
+    tnow = 0
+    ny, nx = g.H.shape
+    i0 = int(g.i0); j0 = int(g.j0)
+    xmin = float(i0); xmax = float(i0 + nx - 1); ymin = float(j0); ymax = float(j0 + ny - 1)
+    H0 = np.array(g.H, dtype=float); M0 = np.array(g.M); ZW = np.array(g.z_w); ZR = np.array(g.z_r)
+    DX0 = np.array(g.dx) if own else None
+    LON0 = np.array(g.lon) if own else None; LAT0 = np.array(g.lat) if own else None
+
+    def snap():
+        if f is None:
+            return {}
+        if pair == "salmon_lice":
+            return dict(A=np.array(f.AKs))
+        return dict(U=f.U.copy(), V=f.V.copy(), dU=f.dU.copy(), dV=f.dV.copy(), W=f.W.copy(), T=np.array(f.temp), A=np.array(f.AKs))
+    S = snap()
+
+    # the queries: (name, site, which depth array, call on (forcing, grid, X, Y, Z))
+    Q = []
+    if pair in ("chemicals", "mine"):
+        Q += [("vertdiff", fs + "vertdiff", "Z", lambda f_, g_, X, Y, Z: f_.vertdiff(X, Y, Z, "AKs")),
+              # the LaBolle scheme of the chemicals IBM samples K several times per step: same X, Y objects, other depths
+              ("vertdiff_again", fs + "vertdiff", "ZZ", lambda f_, g_, X, Y, Z: f_.vertdiff(X, Y, Z, "AKs")),
+              ("field", fs + "field", "Z", lambda f_, g_, X, Y, Z: f_.field(X, Y, Z, "temp")),
+              ("horzdiff", fs + "horzdiff", "Z", lambda f_, g_, X, Y, Z: f_.horzdiff(X, Y, Z)),
+              ("velocity", fs + "velocity", "Z", lambda f_, g_, X, Y, Z: f_.velocity(X, Y, Z)),
+              ("velocity_tstep", fs + "velocity", "Z", lambda f_, g_, X, Y, Z: f_.velocity(X, Y, Z, tstep=env["ts"])),
+              ("wvel", fs + "wvel", "Z", lambda f_, g_, X, Y, Z: f_.wvel(X, Y, Z))]
+    if pair == "salmon_lice":
+        Q += [("vert_mix", fs + "vert_mix", "Z", lambda f_, g_, X, Y, Z: f_.vert_mix(X, Y, Z))]
+    if own:
+        Q += [("sample_depth", gs + "sample_depth", "Z", lambda f_, g_, X, Y, Z: g_.sample_depth(X, Y)),
+              ("sample_metric", gs + "sample_metric", "Z", lambda f_, g_, X, Y, Z: g_.sample_metric(X, Y)),
+              ("atsea", gs + "atsea", "Z", lambda f_, g_, X, Y, Z: g_.atsea(X, Y)),
+              ("onland", gs + "onland", "Z", lambda f_, g_, X, Y, Z: g_.onland(X, Y)),
+              ("ingrid", gs + "ingrid", "Z", lambda f_, g_, X, Y, Z: g_.ingrid(X, Y)),
+              ("lonlat_nearest", gs + "lonlat", "Z", lambda f_, g_, X, Y, Z: g_.lonlat(X, Y, method="nearest")),
+              ("lonlat", gs + "lonlat", "Z", lambda f_, g_, X, Y, Z: g_.lonlat(X, Y))]
+    if pair in ("mine", "sedimentation"):
+        Q += [("sed_sample_depth", gs + "sample_depth", "Z", lambda f_, g_, X, Y, Z: g_.sample_depth(X, Y))]
+    env = {}
+
+    def judge(name, k, v):
+        """(ok, text): is v (the components of the answer for particle k) a value the statement allows for the position
+        the arrays hold now"""
+        x = env["X"][k]; y = env["Y"][k]; ic = env["Ic"][k]; jc = env["Jc"][k]
+        z = env["Z"][k] if name != "vertdiff_again" else env["ZZ"][k]
+        colw = ZW[:, jc, ic]
+        if name in ("vertdiff", "vertdiff_again"):
+            ks = nearest_interior_levels(colw, z)
+            want = [max(0.0, float(S["A"][kk, jc, ic])) for kk in ks]
+            return (v[0] >= 0 and any(v[0] == w for w in want),
+                    "diffusivity %r; AKs of cell (%d,%d) at its nearest interior w-level(s) %r (clipped at 0): %r" % (v[0], jc, ic, ks, want))
+        if name == "field":
+            Kr, _ = level(ZR[:, jc, ic], z)
+            vals = [S["T"][Kr - 1, jc, ic], S["T"][Kr, jc, ic]]
+            return hull_ok(v[0], vals), "temp %r; cell (%d,%d) at the bracketing rho-levels has %r" % (v[0], jc, ic, vals)
+        if name == "horzdiff":
+            return (v[0] >= 0 and (v[0] == 0 or M0[jc, ic] >= 1)), "horizontal diffusivity %r, land mask of cell (%d,%d) is %r" % (v[0], jc, ic, M0[jc, ic])
+        if name in ("velocity", "velocity_tstep"):
+            t = 0.0 if name == "velocity" else env["ts"]
+            Ut = S["U"] + t * S["dU"] if t >= 0.001 else S["U"]
+            Vt = S["V"] + t * S["dV"] if t >= 0.001 else S["V"]
+            Kw, _ = level(colw, z)
+            lays = [Kw - 1] + ([Kw] if (colw[Kw] == -z and Kw <= Ut.shape[0] - 1) else [])
+            uvals = [Ut[l, jc, ic + e] for l in lays for e in (0, 1)]
+            vvals = [Vt[l, jc + e, ic] for l in lays for e in (0, 1)]
+            return (hull_ok(v[0], uvals) and hull_ok(v[1], vvals),
+                    "tstep %r: (u, v) = (%r, %r); u on the faces of cell (%d,%d), layer(s) %r: %r; v on its faces: %r" % (t, v[0], v[1], jc, ic, lays, uvals, vvals))
+        if name in ("wvel", "vert_mix"):
+            Kw, _ = level(colw, z)
+            F_ = S["W"] if name == "wvel" else S["A"]
+            vals = [F_[Kw - 1, jc, ic], F_[Kw, jc, ic]]
+            return hull_ok(v[0], vals), "%r; cell (%d,%d) at the bracketing w-levels %d, %d has %r" % (v[0], jc, ic, Kw - 1, Kw, vals)
+        if name == "sample_depth":
+            return v[0] == H0[jc, ic], "depth %r, cell (%d,%d) has %r" % (v[0], jc, ic, H0[jc, ic])
+        if name == "sample_metric":
+            return v[0] == DX0[jc, ic], "metric %r, cell (%d,%d) has %r" % (v[0], jc, ic, DX0[jc, ic])
+        if name == "atsea":
+            return bool(v[0]) == bool(M0[jc, ic] > 0), "atsea %r, land mask of cell (%d,%d) is %r" % (v[0], jc, ic, M0[jc, ic])
+        if name == "onland":
+            return bool(v[0]) == bool(M0[jc, ic] < 1), "onland %r, land mask of cell (%d,%d) is %r" % (v[0], jc, ic, M0[jc, ic])
+        if name == "ingrid":
+            if x in (xmin - 0.5, xmax + 0.5) or y in (ymin - 0.5, ymax + 0.5):
+                return True, ""
+            dom = bool(xmin - 0.5 < x < xmax + 0.5 and ymin - 0.5 < y < ymax + 0.5)
+            return bool(v[0]) == dom, "ingrid %r for a position %s half a cell of the outermost cell centres" % (v[0], "within" if dom else "beyond")
+        if name == "lonlat_nearest":
+            return (v[0] == LON0[jc, ic] and v[1] == LAT0[jc, ic]), "lon/lat (%r, %r), cell (%d,%d) has (%r, %r)" % (v[0], v[1], jc, ic, LON0[jc, ic], LAT0[jc, ic])
+        if name == "lonlat":
+            # bilinear: between the values of the four nodes around the position (the nearest position on the line of the outermost
+            # nodes for a position beyond them)
+            a, _, _ = corner_values(LON0, x - i0, y - j0); b, _, _ = corner_values(LAT0, x - i0, y - j0)
+            return hull_ok(v[0], a) and hull_ok(v[1], b), "lon/lat (%r, %r), the surrounding nodes have lon %r, lat %r" % (v[0], v[1], a, b)
+        if name == "sed_sample_depth":
+            c, i, j = corner_values(H0, x - i0, y - j0)
+            ok = min(c) - 1e-9 <= v[0] <= max(c) + 1e-9           # tolerance as in sed_depth
+            if x == np.floor(x) and y == np.floor(y) and xmin <= x <= xmax and ymin <= y <= ymax:
+                ok = ok and v[0] == H0[int(j), int(i)]            # "the grid depth at grid nodes": exact, as in sed_depth
+            return ok, "depth %r, the surrounding nodes have %r" % (v[0], c)
+        raise KeyError(name)
+
+    npart = ctx.rng.randrange(3, 9)
+    X, Y = positions(ctx.rng, g, npart)
+    Z = np.array([ctx.rng.choice([0.0, 0.5, 5.0, 30.0, ctx.rng.uniform(0, 120)]) for _ in X])
+    hist = []
+    kinds = ["first", "same_cell", "other_cell"] + [ctx.rng.choice(["same_cell", "other_cell", "other_cell", "over_edge", "over_edge", "anywhere", "x_only", "y_only",
+                                                                    "z_only", "unchanged", "new_arrays", "released", "removed"])
+                                                    for _ in range(ctx.n(7, 22))]
+    for step, kind in enumerate(kinds):
+        n = len(X)
+        nX = X.copy(); nY = Y.copy(); nZ = Z.copy()
+        if kind in ("same_cell", "other_cell", "over_edge", "anywhere", "x_only", "y_only", "new_arrays"):
+            pX, pY = positions(ctx.rng, g, n)
+            for k in range(n):
+                kd = kind if kind in ("same_cell", "other_cell", "over_edge") else ctx.rng.choice(["same_cell", "other_cell", "over_edge", "anywhere", "stay"])
+                if kd == "same_cell":
+                    nX[k] = np.round(X[k]) + ctx.rng.uniform(-0.49, 0.49); nY[k] = np.round(Y[k]) + ctx.rng.uniform(-0.49, 0.49)
+                elif kd == "other_cell":
+                    # at most one step of motion: to one of the eight neighbouring cells, not further than one cell outside the grid
+                    di, dj = ctx.rng.choice([(a, b) for a in (-1, 0, 1) for b in (-1, 0, 1) if (a, b) != (0, 0)])
+                    nX[k] = min(max(np.round(X[k]) + di, xmin - 1), xmax + 1) + ctx.rng.uniform(-0.49, 0.49)
+                    nY[k] = min(max(np.round(Y[k]) + dj, ymin - 1), ymax + 1) + ctx.rng.uniform(-0.49, 0.49)
+                elif kd == "over_edge":
+                    # from a cell next to an edge (or wherever it is) to 0.5 .. 1.49 cells beyond an edge
+                    d = ctx.rng.choice([0.5, 0.51, 0.9, 1.0, 1.49]); side = ctx.rng.choice("WESN")
+                    if side == "W": nX[k] = xmin - d
+                    if side == "E": nX[k] = xmax + d
+                    if side == "S": nY[k] = ymin - d
+                    if side == "N": nY[k] = ymax + d
+                elif kd == "anywhere":
+                    nX[k] = pX[k]; nY[k] = pY[k]
+            if kind == "x_only": nY = Y.copy()
+            if kind == "y_only": nX = X.copy()
+        if kind not in ("unchanged", "first"):
+            for k in range(n):
+                if ctx.rng.random() < 0.5:
+                    nZ[k] = ctx.rng.choice([0.0, 0.5, 5.0, 30.0, ctx.rng.uniform(0, 120), abs(Z[k] + ctx.rng.uniform(-3, 3))])
+                if ctx.rng.random() < 0.15:
+                    # exactly on a w-level / half way between two w-levels (two interior levels equally near) of the new cell's column
+                    cw = ZW[:, min(max(int(np.round(nY[k])) - j0, 0), ny - 1), min(max(int(np.round(nX[k])) - i0, 0), nx - 1)]
+                    j = ctx.rng.randrange(len(cw) - 1)
+                    nZ[k] = (-cw[j] if ctx.rng.random() < 0.5 else -0.5 * (cw[j] + cw[j + 1])) + 0.0
+                    ctx.branch("history_depth_on_or_between_w_levels")
+        # how the caller stores the new positions
+        if kind == "new_arrays":
+            how = "new_arrays"; X = nX; Y = nY; Z = nZ
+        elif kind == "released":
+            how = "released"; m = ctx.rng.randrange(1, 4); pX, pY = positions(ctx.rng, g, m)
+            X = np.concatenate([nX, pX]); Y = np.concatenate([nY, pY]); Z = np.concatenate([nZ, np.array([ctx.rng.uniform(0, 60) for _ in range(m)])])
+        elif kind == "removed" and n > 2:
+            how = "removed"; keep = np.ones(n, dtype=bool); keep[ctx.rng.randrange(n)] = False
+            X = nX[keep]; Y = nY[keep]; Z = nZ[keep]
+        else:
+            how = ctx.rng.choice(["slice", "mask", "add"])
+            if how == "slice":
+                X[:] = nX; Y[:] = nY; Z[:] = nZ
+            elif how == "mask":
+                mv = (nX != X) | (nY != Y) | (nZ != Z)
+                X[mv] = nX[mv]; Y[mv] = nY[mv]; Z[mv] = nZ[mv]
+            else:
+                X += nX - X; Y += nY - Y; Z[:] = nZ
+                # the sum may land on the other side of a cell border or beyond 1.49 cells outside: then store the target itself
+                bad = (np.round(X) != np.round(nX)) | (np.round(Y) != np.round(nY)) | (np.abs(X - nX) > 1e-9) | (np.abs(Y - nY) > 1e-9)
+                X[bad] = nX[bad]; Y[bad] = nY[bad]
+        n = len(X)
+        # the forcing advances to the next time step (as in a run: update, then the queries of that step)
+        if f is not None and tnow < nt_max and kind != "first" and ctx.rng.random() < 0.3:
+            tnow += 1; f.update(tnow); f2.update(tnow); S = snap(); ctx.branch("history_forcing_time_step")
+        ZZ = np.array([abs(z + ctx.rng.uniform(-4, 4)) for z in Z])
+        Ic = np.clip(np.round(X).astype(int) - i0, 0, nx - 1); Jc = np.clip(np.round(Y).astype(int) - j0, 0, ny - 1)
+        env.update(X=X, Y=Y, Z=Z, ZZ=ZZ, Ic=Ic, Jc=Jc, ts=ctx.rng.choice([0.5, 1.0]))
+        hist.append(dict(step=step, move=kind, stored=how if kind != "first" else "first arrays", forcing_time_step=tnow,
+                         X=X.tolist(), Y=Y.tolist(), Z=Z.tolist()))
+        ctx.case(key=("history", pair, label, step, tuple(X.tolist()), tuple(Y.tolist())), nontrivial=True)
+        ctx.branch("history_" + pair); ctx.branch("history_move_" + kind)
+        if kind != "first":
+            ctx.branch("history_stored_" + how)
+            if how in ("slice", "mask", "add"):
+                if np.any((Ic != pIc[:n]) | (Jc != pJc[:n])):
+                    ctx.branch("history_in_place_to_other_cell")
+                out_now = ~((xmin - 0.5 < X) & (X < xmax + 0.5) & (ymin - 0.5 < Y) & (Y < ymax + 0.5))
+                if np.any(out_now & ~pOut[:n]):
+                    ctx.branch("history_in_place_out_over_edge")
+        pIc = Ic; pJc = Jc; pOut = ~((xmin - 0.5 < X) & (X < xmax + 0.5) & (ymin - 0.5 < Y) & (Y < ymax + 0.5))
+        cs = dict(grid=label, module=pair, i0=i0, j0=j0, shape=[ny, nx], step=step,
+                  how="one Grid / Forcing, all queries of every step in this order: %s; the arrays X, Y, Z of a step are the SAME objects as "
+                      "in the step before unless 'stored' says new_arrays / released / removed" % ", ".join(q[0] for q in Q),
+                  history=[dict(h) for h in hist])
+        for name, site, zsel, call in Q:
+            Zq = Z if zsel == "Z" else ZZ
+            Xb = X.copy(); Yb = Y.copy(); Zb = Zq.copy()
+            v = try_call(ctx, tag + "." + name + ".raises", site, lambda: call(f, g, X, Y, Zq), dict(cs, query=name))
+            if v is None:
+                continue
+            cols = as_cols(v)
+            if not ctx.oracle(all(np.shape(c) == (n,) for c in cols), tag + "." + name + ".shape", site,
+                              "answer of shape %r for %d particles" % ([np.shape(c) for c in cols], n), dict(cs, query=name)):
+                continue
+            # judged on what the arrays held when the query was issued
+            env.update(X=Xb, Y=Yb, Z=Zb if zsel == "Z" else env["Z"], ZZ=Zb if zsel == "ZZ" else env["ZZ"],
+                       Ic=np.clip(np.round(Xb).astype(int) - i0, 0, nx - 1), Jc=np.clip(np.round(Yb).astype(int) - j0, 0, ny - 1))
+            for k in range(n):
+                ok, text = judge(name, k, [c[k] for c in cols])
+                if not ctx.oracle(ok, tag + "." + name + ".not_value_of_current_cell", site,
+                                  "step %d (%s), particle %d now at (%r, %r, depth %r): %s" % (step, kind, k, Xb[k], Yb[k], Zb[k], text),
+                                  dict(cs, query=name, particle=k)):
+                    break
+            # the same positions asked of a Grid / Forcing that has never seen these arrays or any earlier position
+            r = try_call(ctx, tag + "." + name + ".raises", site, lambda: call(f2, g2, Xb.copy(), Yb.copy(), Zb.copy()), dict(cs, query=name, fresh=True))
+            if r is not None:
+                rc = as_cols(r)
+                bad = [k for k in range(n) if any(not np.array_equal(np.asarray(c)[k], np.asarray(d)[k], equal_nan=True) for c, d in zip(cols, rc))]
+                ctx.oracle(not bad, tag + "." + name + ".depends_on_history", site,
+                           "step %d (%s): particle(s) %r get %r; a Grid / Forcing without history gives %r for the same positions"
+                           % (step, kind, bad[:3], [[np.asarray(c)[k] for c in cols] for k in bad[:3]], [[np.asarray(d)[k] for d in rc] for k in bad[:3]]),
+                           dict(cs, query=name))
+    for o in (f, f2):
+        try:
+            if o is not None:
+                o.close()
+        except Exception:
+            pass
+
+
 def full_run(ctx, tmp, module, side, idx):
     """a full LADiM run of one module on a flat basin with a uniform current towards one boundary: three particles released
     0.05 / 0.3 / 0.6 cell inside that boundary and one in the middle.  The run must complete and, at the last output, only the
@@ -582,6 +859,9 @@ def run(ctx):
             check_grid(ctx, drv, pend, G, conf, label, pair="mine")
             lice_vert_mix(ctx, conf, label)
             sed_depth(ctx, drv, pend, conf, label)
+            for pair in ("chemicals", "mine", "salmon_lice", "sedimentation"):
+                for rep in range(ctx.n(2, 4)):
+                    history(ctx, G, conf, label, pair, nt_max=4)
         # full LADiM runs with particles leaving through each boundary
         idx = 0
         for rep in range(ctx.n(1, 8)):
@@ -598,6 +878,8 @@ def run(ctx):
                 conf = dict(gridforce=dict(input_file=chem), start_time=np.datetime64("2015-09-07T01:00:00"),
                             stop_time=np.datetime64("2015-09-07T01:05:00"), dt=60, ibm_forcing=["temp", "AKs"])
                 check_grid(ctx, drv, pend, G, conf, "shipped")
+                for rep in range(ctx.n(2, 6)):
+                    history(ctx, G, conf, "shipped", "chemicals", nt_max=3)
             else:
                 ctx.note("shipped forcing.nc lacks %r: forcing queries not run on it" % ([v for v in ("temp", "AKs") if v not in have],))
         except Exception as e:
